@@ -111,6 +111,9 @@ class RaiseSignal(Exception):
 
 # ---------------------------------------------------------------------------- engine
 
+STR_BOX = z3.Function("str_box", z3.StringSort(), Obj)
+
+
 class Engine:
     def __init__(self, repo: Repo, reg: Registry, prop: str = "", prune: bool = True):
         self.repo = repo
@@ -438,6 +441,13 @@ class Engine:
             return SV(ty, val.v, val.none)
         if val.ty.kind == "bool" and ty.kind == "int":
             return SV(INT, z3.If(val.v, I(1), I(0)), val.none)
+        if val.ty.kind == "str" and ty.kind == "obj" and ty.cls in ("TokenOrStr", "str", None):
+            # a plain str stored in an object-typed container: the (value-determined) str object str_box(s)
+            if not getattr(self, "_box_axiom", False):
+                self._box_axiom = True
+                bs = z3.String("q_box_s")
+                self.axioms.append(z3.ForAll([bs], And(class_of(STR_BOX(bs)) == STR_CID, strval(STR_BOX(bs)) == bs), patterns=[STR_BOX(bs)]))
+            return SV(ty, STR_BOX(val.v), val.none)
         if val.ty.kind == ty.kind and val.ty.kind in ("seq", "tuple", "dict", "set"):
             try:
                 u = unify(val.ty, ty)
